@@ -89,6 +89,12 @@ Arm(kind) ==
     /\ armed' = armed \cup {kind}
     /\ UNCHANGED <<latest, final, variant, txs, rcpt>>
 
+\* An armed failure goes away without having hit a call (the backend recovered).
+Disarm(kind) ==
+    /\ kind \in armed
+    /\ armed' = armed \ {kind}
+    /\ UNCHANGED <<latest, final, variant, txs, rcpt>>
+
 ---------------------------------------------------------------------------
 \* What a call answers
 
